@@ -39,6 +39,7 @@ var extractors = []extractor{
 	{"DescIter", genDescIter},
 	{"UnifyID", genUnifyID},
 	{"WireFacts", genWireFacts},
+	{"ClientReq", genClientReq},
 }
 
 func main() {
